@@ -202,7 +202,8 @@ def run_case(case, ctx):
 
 
 SMALL_GLOBS = ["a", "b", "*.a", "a*", "*", "**", "a/*", "**/a", "a/**", "\\*", "ab", "a.b", "*/b", "a/b", "./a", "a/", "a//b", "a/./b", "a/../b",
-               "*/.", "/a", "b.", ".a", "**/*.a", "a\\\\b", "\\a"]
+               "*/.", "/a", "b.", ".a", "**/*.a", "a\\\\b", "\\a", "a/**/b/**", "a/*.a", "**/b/**", "a**", "a/**/*", "a/b*", "a/**/b",
+               "b/**", "*/**", "a/*/**"]
 QUERY_PATHS = None
 
 
@@ -218,7 +219,7 @@ def query_paths():
                 # spellings a root-relative file path can really have
                 if not p.startswith("/") and PurePosixPath(p).as_posix() == p and "." not in p.split("/") and ".." not in p.split("/"):
                     out.append(p)
-        QUERY_PATHS = out + ["a/b/c.a", "x/y/a", "ab/ba", "a.a", "b.a/a", "a/b/a/b"]
+        QUERY_PATHS = out + ["a/b/c.a", "x/y/a", "ab/ba", "a.a", "b.a/a", "a/b/a/b", "a/x.a", "a/c.a", "a/b/x/y", "a/x/b/y", "a/x/b", "a/bb", "b/a/b/a"]
     return QUERY_PATHS
 
 
